@@ -1086,7 +1086,6 @@ func ecRealPair(tcp bool, sndbuf, rcvbuf int, wcb, rcb eventConnCallback) (*ecCo
 }
 
 func ecRunE2E(cfg *ecE2ECfg, res *ecResult) {
-	level = levelNoPrint
 	var viol *ecViolation
 	fail := func(kind, detail string) {
 		if viol == nil {
@@ -1378,7 +1377,6 @@ type ecBurstCfg struct {
 }
 
 func ecRunBurst(cfg *ecBurstCfg, res *ecResult) {
-	level = levelNoPrint
 	var viol *ecViolation
 	fail := func(kind, detail string) {
 		if viol == nil {
@@ -1520,7 +1518,6 @@ func ecProbeWritevEmpty() (outcome string) {
 
 // data written immediately before the peer closes its end
 func ecProbeDataThenClose() string {
-	level = levelNoPrint
 	recv := &ecRecv{rng: rand.New(rand.NewSource(1)), mode: 2}
 	recv.mode = 0
 	a, b, err := ecSocketpair(unix.SOCK_STREAM)
@@ -1609,7 +1606,6 @@ func (c *ecWrConn) write(d []byte) error {
 }
 
 func ecNewWrWorld() *ecWrWorld {
-	level = levelNoPrint
 	w := &ecWrWorld{gates: map[int]*vsGateT{}, running: map[int]bool{}, retCh: map[int]chan struct{}{}}
 	w.prefixes = map[int]string{ecWrFast1: "Session.wakeUpPeer:", ecWrFast2: "Session.hotRestart:", ecWrLoop: "Session.send:"}
 	w.frames = map[int]string{ecWrFast1: "(*Session).wakeUpPeer(", ecWrFast2: "(*Session).hotRestart(", ecWrLoop: "(*Session).send("}
